@@ -1,6 +1,6 @@
 """C33 set_const recomputes derived model fields correctly.
 
-Space (enumerated): every DFS-ordered 3-body tree x a cyclic choice of joint-kind assignments, decorated with a tendon set
+Space (enumerated): every DFS-ordered 3-body tree x a cyclic choice of joint-kind assignments (incl. bodies without a joint, on a moving body and on the world), decorated with a tendon set
 (fixed tendons on every size-1 and size-2 subset of the scalar joints, listed forward and again reversed around a 3-site
 spatial tendon, plus two 2-site spatial tendons: 5..23 tendons, every pair of distinct dof supports in both id orders),
 connect / weld / joint equalities, position actuators with dampratio on a joint and a tendon, a motor, and a
